@@ -610,10 +610,17 @@ static void run_cmd(char *line)
   else if (!strcmp(c, "W") || !strcmp(c, "WSUM")) { /* W slot dir name */
     econf_file *kf = strcmp(tok[1], "-") ? slot[sl(tok[1])] : NULL;
     char *d = dec(tok[2], NULL), *nm = dec(tok[3], NULL);
+    char *full; if (asprintf(&full, "%s/%s", d ? d : "", nm ? nm : "") < 0) exit(3);
+    struct stat sb0; int existed = lstat(full, &sb0) == 0;
     econf_err e = econf_writeFile(kf, d, nm);
     printf("w E%d\n", e);
-    if (!e) { char *full; if (asprintf(&full, "%s/%s", d, nm) < 0) exit(3);
-      if (!strcmp(c, "W")) print_file_bytes(full); else print_file_sum(full); free(full); }
+    if (!e) {
+      if (!strcmp(c, "W")) print_file_bytes(full); else print_file_sum(full);
+      /* the harness runs with umask 022: a file that did not exist before is created with mode 0644; anything else is said */
+      struct stat sb; if (!existed && stat(full, &sb) == 0 && (sb.st_mode & 07777) != 0644) printf("wmode %o\n", (unsigned)(sb.st_mode & 07777));
+      mode_t um = umask(022); if (um != 022) printf("umask %o\n", (unsigned)um);
+    }
+    free(full);
     free(d); free(nm);
   }
   else if (!strcmp(c, "ALLGET")) all_getters(slot[sl(tok[1])]);
@@ -721,8 +728,16 @@ int main(int argc, char **argv)
 #endif
   char id[256]; char *body; long cnt = 0;
   setvbuf(stdout, NULL, _IOFBF, 1 << 16);
+  int timeouts = 0;
   while ((body = read_scenario(id, sizeof id)) != NULL) {
     printf("#BEGIN %s\n", id); fflush(stdout);
+    if (timeouts >= 5) {
+      /* five scenarios of this batch have already run into the time limit: that is reported; the rest of the
+         batch is marked as not run instead of waiting for the limit again and again */
+      printf("#END %s SKIPPED\n", id); fflush(stdout);
+      free(body);
+      continue;
+    }
     char root[4200]; snprintf(root, sizeof root, "%s/r%ld", scratch_base, cnt++);
     mkdir(root, 0755);
     pid_t pid = fork();
@@ -741,7 +756,7 @@ int main(int argc, char **argv)
     }
     int st = 0; waitpid(pid, &st, 0);
     if (WIFEXITED(st) && WEXITSTATUS(st) == 0) printf("#END %s ok\n", id);
-    else if (WIFSIGNALED(st) && WTERMSIG(st) == SIGALRM) printf("\n#END %s TIMEOUT\n", id);
+    else if (WIFSIGNALED(st) && WTERMSIG(st) == SIGALRM) { printf("\n#END %s TIMEOUT\n", id); timeouts++; }
     else printf("\n#END %s CRASH %d\n", id, WIFEXITED(st) ? WEXITSTATUS(st) : 128 + WTERMSIG(st));
     fflush(stdout);
     free(body);
